@@ -36,7 +36,9 @@ BUILTINS: Dict[str, Tuple[Tuple[str, ...], str]] = {
     "value": (("N",), "V"),
 }
 
-PATTERNS = ("a", "a.*", "[ab]+", ".", "ab?c?", "x|a", "\\\\d", "(", "a{2}", "[^a]")
+# (the last few mean different things under the two dialects of the `regex` package --
+# doubled set operators inside a class -- and nothing special under I-Regexp)
+PATTERNS = ("a", "a.*", "[ab]+", ".", "ab?c?", "x|a", "\\\\d", "(", "a{2}", "[^a]", "[a&&b]", "[a||b]", "[a~~b]", "[a-c&&b]x?")
 
 
 def quote(s: str, dq: bool = False) -> str:
